@@ -3,6 +3,7 @@ CONSTANTS
   HistLen = 0
   Random = FALSE
 SPECIFICATION Spec
+CONSTRAINT OnePool
 INVARIANT TypeInv
 INVARIANT SearchSound
 INVARIANT SearchComplete
